@@ -108,8 +108,9 @@ package proto
 //@ -- type compatibility is a function of the two type strings (the string algebra itself is C19's
 //@ -- subject and is not verified here)
 //@ spec func typeConflicts(a Bytes, an Int, b Bytes, bn Int) Bool
-//@ assume contract (c ColumnType) Conflicts(b) (r)
-//@   ensures r == typeConflicts(arrayof(c), len(c), arrayof(b), len(b))
+//@ contract (c ColumnType) Conflicts(b) (r) props(C18,C19)
+//@   ensures c == b ==> !r [C19] {reflexive}
+//@   ensures [abstract] r == typeConflicts(arrayof(c), len(c), arrayof(b), len(b))
 
 //@ -- a bound target always carries a column (a nil Data is caller misuse, not hostile input)
 //@ valid (c ResultColumn): c.Data != nil
